@@ -242,7 +242,16 @@ def f38():
     return True if tot == 0 else f"<C - D, B_0> = {tot}"
 
 
-for name, fn in (("F36", f36), ("F37", f37), ("F38", f38)):
+def f39():
+    """C08: product of two float curves over [0.03, 0.33] raised ValueError before the repair"""
+    a, b = 0.03, 0.33
+    A, B = Curve([a, a, b, b], [1.0, 2.0]), Curve([a, a, b, b], [3.0, -1.0])
+    C = A * B
+    u = (a + b) / 2
+    return True if abs(C(u) - A(u) * B(u)) < 1e-12 else C(u)
+
+
+for name, fn in (("F36", f36), ("F37", f37), ("F38", f38), ("F39", f39)):
     if len(sys.argv) > 1 and name not in sys.argv[1:]:
         continue
     t(name, fn)
